@@ -64,7 +64,7 @@ func (n *BlockNode) render(w *trimWriter, ctx nodeContext) Error {
 
 func (n *RawNode) render(w *trimWriter, ctx nodeContext) Error {
 	for _, s := range n.slices {
-		_, err := io.WriteString(w, s)
+		_, err := io.WriteString(verbatimWriter{w}, s)
 		if err != nil {
 			// a raw node has no source location of its own
 			return wrapRenderError(err, invalidLoc)
@@ -81,7 +81,7 @@ func (n *ObjectNode) render(w *trimWriter, ctx nodeContext) Error {
 	if value == nil && ctx.config.StrictVariables {
 		return wrapRenderError(errors.New("undefined variable"), n)
 	}
-	if err := wrapRenderError(writeObject(w, value), n); err != nil {
+	if err := wrapRenderError(writeObject(verbatimWriter{w}, value), n); err != nil {
 		return err
 	}
 	return nil
@@ -97,7 +97,8 @@ func (n *SeqNode) render(w *trimWriter, ctx nodeContext) Error {
 }
 
 func (n *TagNode) render(w *trimWriter, ctx nodeContext) Error {
-	err := wrapRenderError(n.renderer(w, rendererContext{ctx, n, nil}), n)
+	// what a tag writes (the output of an included file, a cycle value) is not literal text of the template
+	err := wrapRenderError(n.renderer(verbatimWriter{w}, rendererContext{ctx, n, nil}), n)
 	return err
 }
 
